@@ -4,7 +4,7 @@ import z3
 
 from . import theory as T
 from . import tys as TY
-from .sv import (SV, NONE, Frame, OutOfSubset, BreakEx, ContinueEx, PathEnd, StaleContract, mk_int, mk_bool, mk_real)
+from .sv import (mk_bytes, SV, NONE, Frame, OutOfSubset, BreakEx, ContinueEx, PathEnd, StaleContract, mk_int, mk_bool, mk_real)
 from .interp import as_int_term, as_real_term, const_int, is_num
 
 
@@ -33,6 +33,8 @@ def havoc_value(I, v, name):
         return SV('rec', o, cls=v.cls, extra=v.extra)
     if k == 'none':
         return v
+    if k == 'mdict':
+        return I.fresh(('mdict', v.extra['key'], v.extra['elem']), name)
     if k == 'odict':
         from .objects import fresh_odict
         nv = fresh_odict(I, name)
@@ -84,6 +86,15 @@ def retype_at_entry(I, spec, frame):
             for e in cur.t:
                 t = lt.lapp(t, e.t)
             frame.vars[nm] = SV('slist', t, extra={'elem': ty[1]})
+        if cur is not None and ty == 'bytes' and cur.kind == 'mobj' and I.is_byteslike(cur):
+            frame.vars[nm] = mk_bytes(I.as_bytes(cur))      # `x += more_bytes` turns an instance of a bytes subclass into bytes
+        if cur is not None and cur.kind == 'cdict' and isinstance(ty, tuple) and ty[0] == 'mdict':
+            if cur.t:
+                raise OutOfSubset(f"non-empty dict literal {nm} turned symbolic")
+            ks, vs = TY.smt_sort(ty[1]), TY.smt_sort(ty[2])
+            frame.vars[nm] = SV('mdict', {'has': z3.K(ks, z3.BoolVal(False)),
+                                          'val': z3.Array(I.path.fresh_name(nm + '_empty'), ks, vs)},
+                                extra={'key': ty[1], 'elem': ty[2]})
 
 
 def check_invariants(I, spec, frame, key, n, phase):
@@ -194,6 +205,13 @@ def exec_for(I, st, frame):
     if ch == 0:
         I.path.assume(i < length)
         I.assign(st.target, elem_at(i), frame)
+        if spec.step:
+            # step clauses relate the state at the start of an iteration (pre_<name>, pre_out) to its end
+            for nm in list(frame.vars):
+                if not nm.startswith('pre_'):
+                    frame.vars['pre_' + nm] = _snapshot_sv(frame.vars[nm])
+            if I.path.yielded is not None:
+                frame.vars['pre_out'] = _snapshot_sv(I.path.yielded)
         try:
             I.exec_block(st.body, frame)
         except BreakEx:
@@ -202,10 +220,39 @@ def exec_for(I, st, frame):
             pass
         frame.vars[idx_name] = mk_int(i + 1)
         add_hints(I, spec.hints_end, frame)
+        if spec.step:
+            from .contract import eval_spec
+            if I.path.yielded is not None:
+                frame.vars['out'] = I.path.yielded
+            for sname, sexpr in spec.step.items():
+                I.path.oblige(f"{key}:loop{n}:step:{sname}", eval_spec(I, sexpr, frame, f"{key}:loop{n}:step:{sname}"))
+            frame.vars.pop('out', None)
         check_invariants(I, spec, frame, key, n, 'preserved')
         raise PathEnd(f'end of loop body {key}:{n}')
     I.path.assume(i == length)
     I.exec_block(st.orelse, frame)
+
+
+def _snapshot_sv(v):
+    """values that are updated in place (symbolic lists, local dicts) are copied for pre_<name> snapshots"""
+    if v.kind == 'slist':
+        return SV('slist', v.t, cls=v.cls, extra={k_: x for k_, x in (v.extra or {}).items() if k_ != 'backref'})
+    if v.kind == 'mdict':
+        return SV('mdict', dict(v.t), cls=v.cls, extra=v.extra)
+    return v
+
+
+def bytes_object(I, icls, bterm):
+    """an instance of a bytes subclass with class-level cursor (RawPacketData): fresh identity, the given content, and
+    the class default of `pos`"""
+    from .sv import MObj
+    ci = I.world.find_class(icls)
+    m = MObj(ci.name)
+    m.fields['__bytes__'] = mk_bytes(bterm)
+    ca = I.world.find_class_attr(ci, 'pos')
+    if ca is not None:
+        m.fields['pos'] = I.eval(ca[1], I.registry.global_frame(I, ca[0].module))
+    return SV('mobj', m, cls=ci.name)
 
 
 def sequence_view(I, seq, node):
@@ -214,10 +261,22 @@ def sequence_view(I, seq, node):
     if seq.kind == 'slist':
         lt = TY.list_theory(TY.smt_sort(seq.extra['elem']))
         return lt.llen(seq.t), (lambda i: wrap_term(I, seq.extra['elem'], lt.lat(seq.t, i)))
+    if seq.kind == 'lslice':
+        base, lo_t, hi_t = seq.t
+        lt = TY.list_theory(TY.smt_sort(base.extra['elem']))
+        return hi_t - lo_t, (lambda i: wrap_term(I, base.extra['elem'], lt.lat(base.t, lo_t + i)))
     if seq.kind == 'range':
         lo, hi = seq.t
         return z3.If(hi > lo, hi - lo, 0), (lambda i: mk_int(lo + i))
-    if seq.kind in ('gen', 'items_view', 'keys_view', 'values_view'):
+    if seq.kind == 'gen':
+        # everything a generator under contract yields, as constrained by its exhaustion clauses
+        inner = seq.t
+        n, at_ = sequence_view(I, inner, node)
+        icls = seq.extra['contract'].ghost.get('item_class')
+        if icls is None:
+            return n, at_
+        return n, (lambda i: bytes_object(I, icls, at_(i).t))
+    if seq.kind in ('items_view', 'keys_view', 'values_view'):
         return I.registry.view_sequence(I, seq, node)
     I.oos(node, f"iteration over {seq.kind}")
 
@@ -254,6 +313,10 @@ def eval_listcomp(I, node, frame):
         return SV('clist', out)
     if gen.ifs:
         return I.registry.filtered_comprehension(I, node, frame, seq)
+    from .lists import symbolic_listcomp
+    summarized = symbolic_listcomp(I, node, frame, seq, node)
+    if summarized is not None:
+        return summarized
     # pointwise map over a symbolic sequence: the element expression must be pure (no forks, no exceptions)
     length, elem_at = sequence_view(I, seq, node)
     j = z3.Int(I.path.fresh_name('j!b'))
